@@ -305,10 +305,6 @@ pub open spec fn sp_tag_sep() -> Seq<char> {
     seq![')', ' ', '=', ' ']
 }
 
-pub open spec fn sp_has_occ(s: Seq<char>, p: Seq<char>) -> bool {
-    exists|k: int| sp_occurs_at(s, p, k)
-}
-
 pub open spec fn sp_is_first_occ(s: Seq<char>, p: Seq<char>, k: int) -> bool {
     sp_occurs_at(s, p, k) && forall|j: int| 0 <= j < k ==> !sp_occurs_at(s, p, j)
 }
@@ -472,8 +468,7 @@ pub proof fn lemma_trim_eol_unique(s: Seq<char>, r: Seq<char>)
 // split_once / rsplit_once as characterised by their contracts are sp_split_first / sp_split_last
 pub proof fn lemma_split_first_unique(s: Seq<char>, p: Seq<char>, a: Seq<char>, b: Seq<char>)
     requires
-        s == a + p + b,
-        forall|j: int| 0 <= j < a.len() ==> !sp_occurs_at(s, p, j),
+        sp_is_split_first(s, p, a, b),
     ensures
         sp_split_first(s, p) == Some((a, b)),
 {
@@ -495,8 +490,7 @@ pub proof fn lemma_split_first_unique(s: Seq<char>, p: Seq<char>, a: Seq<char>, 
 
 pub proof fn lemma_split_last_unique(s: Seq<char>, p: Seq<char>, a: Seq<char>, b: Seq<char>)
     requires
-        s == a + p + b,
-        forall|j: int| a.len() < j ==> !sp_occurs_at(s, p, j),
+        sp_is_split_last(s, p, a, b),
     ensures
         sp_split_last(s, p) == Some((a, b)),
 {
@@ -514,6 +508,58 @@ pub proof fn lemma_split_last_unique(s: Seq<char>, p: Seq<char>, a: Seq<char>, b
     }
     assert(s.take(k0) =~= a);
     assert(s.skip(k0 + p.len()) =~= b);
+}
+
+// quantified forms (the code returns the wrapper's result as its tail expression)
+pub proof fn lemma_split_first_all(s: Seq<char>, p: Seq<char>)
+    ensures
+        forall|a: Seq<char>, b: Seq<char>| #[trigger]
+            sp_is_split_first(s, p, a, b) ==> sp_split_first(s, p) == Some((a, b)),
+        !sp_has_occ(s, p) ==> sp_split_first(s, p) is None,
+{
+    assert forall|a: Seq<char>, b: Seq<char>| #[trigger] sp_is_split_first(s, p, a, b) implies sp_split_first(s, p)
+        == Some((a, b)) by {
+        lemma_split_first_unique(s, p, a, b);
+    }
+}
+
+pub proof fn lemma_split_last_all(s: Seq<char>, p: Seq<char>)
+    ensures
+        forall|a: Seq<char>, b: Seq<char>| #[trigger]
+            sp_is_split_last(s, p, a, b) ==> sp_split_last(s, p) == Some((a, b)),
+        !sp_has_occ(s, p) ==> sp_split_last(s, p) is None,
+{
+    assert forall|a: Seq<char>, b: Seq<char>| #[trigger] sp_is_split_last(s, p, a, b) implies sp_split_last(s, p)
+        == Some((a, b)) by {
+        lemma_split_last_unique(s, p, a, b);
+    }
+}
+
+// the literals of the format
+pub proof fn lemma_literals()
+    ensures
+        "  "@ == sp_sep(),
+        "BLAKE3 ("@ == sp_tag_prefix(),
+        ") = "@ == sp_tag_sep(),
+        sp_blen(sp_tag_prefix()) == 8,
+        "\n"@ == seq!['\n'],
+        "\r"@ == seq!['\r'],
+        "\\"@ == seq!['\\'],
+{
+    reveal_strlit("  ");
+    reveal_strlit("BLAKE3 (");
+    reveal_strlit(") = ");
+    reveal_strlit("\n");
+    reveal_strlit("\r");
+    reveal_strlit("\\");
+    assert("  "@ =~= sp_sep());
+    assert("BLAKE3 ("@ =~= sp_tag_prefix());
+    assert(") = "@ =~= sp_tag_sep());
+    assert("\n"@ =~= seq!['\n']);
+    assert("\r"@ =~= seq!['\r']);
+    assert("\\"@ =~= seq!['\\']);
+    assert(sp_all_ascii(sp_tag_prefix()));
+    lemma_blen_ascii(sp_tag_prefix());
 }
 
 // a hash field of 64 BYTES whose first 64 chars are lowercase hex has exactly 64 chars
